@@ -211,7 +211,7 @@ def run_check(prop: str, tier: str, seed: int, replay_path: str = "") -> int:
         drv = C.Driver(drv_exe) if ok_drv else None
     except Exception as ex:
         broken.append({"kind": "driver", "error": repr(ex)})
-    budget = float(os.environ.get("VERIF_BUDGET_S", "1500" if tier == "thorough" else "240"))
+    budget = float(os.environ.get("VERIF_BUDGET_S", "1000" if tier == "thorough" else "240"))
     ctx = Ctx(prop, tier, seed, np.random.default_rng(seed), drv, time.time(), budget)
     corr = C.Part()
     orc = C.Part()
